@@ -174,6 +174,45 @@ def run(ctx):
     ctx.suite("v1", cases=len(cases))
     for case, c, mr in zip(cases, circuits, mres):
         check_case(ctx, case, c, mr)
+    # the reader of the round-trip theorem (Model/Reader.read1, extracted) against this module's own line reader, on the
+    # text the implementation exported (comments on one line only: the theorem's hypothesis)
+    texts = []
+    for case, c in zip(cases, circuits):
+        st, txt = export(c)
+        if st == "ok" and not any(type(s).__name__ == "Comment" and "\n" in s.str for s in c.ir.statements):
+            texts.append((case, txt))
+    rres = model.call_many([["read1", t] for _, t in texts])
+
+    def unstr(v):
+        if isinstance(v, tuple) and len(v) == 2 and v[0] == "str":
+            return v[1]
+        if isinstance(v, list):
+            return [unstr(x) for x in v]
+        return v
+    for (case, txt), (_, r) in zip(texts, rres):
+        rv = unstr(ser.canon(r))
+        try:
+            nq, lines = parse_v1(txt)
+        except Exception:  # noqa: BLE001
+            continue
+        if rv[0] != "some":
+            ctx.disagree("reader", {k: v for k, v in case.items()}, f"the verified reader refuses an exported text\n{txt}")
+            continue
+        rnq, rlines = rv[1]
+        good = int(rnq) == (nq or 0) and len(rlines) == len(lines)
+        if good:
+            for rl, ln in zip(rlines, lines):
+                if ln[0] == "comment" and len(ln) == 2:
+                    good = good and rl[0] == "comment" and rl[1] == ln[1]
+                else:
+                    name, qs, ps = ln
+                    good = good and rl[0] == "gate" and rl[1] == name and [int(q) for q in rl[3]] == qs and \
+                        [str(a[1]) for a in rl[2]] == ps
+                if not good:
+                    break
+        if not good:
+            ctx.disagree("reader", {k: v for k, v in case.items()}, f"the verified reader and the line oracle read the exported text differently\n{txt}\n{rv}")
+    ctx.suite("reader_vs_line_oracle", cases=len(texts))
     ctx.sample(cases[0])
     ctx.sample({"text": export(circuits[0])[1][:300]})
 
